@@ -98,68 +98,110 @@ def heapsort (lo hi : Nat) : M a0 Unit := do
     swp lo (lo + i)
     siftDown lt lo i 0
 
+/-- the offsets `i < block` of the elements of `v[l .. l+block)` that are **not** smaller than the pivot (left scan) -/
+def pibScanL (l block : Nat) (pivot : α) : M a0 (Array Nat) := do
+  let mut offs : Array Nat := #[]
+  for i in [0:block] do
+    if !(lt (← rd (l + i)) pivot) then offs := offs.push i
+  return offs
+
+/-- the offsets `i < block` (counted from the right end `r`) of the elements of `v[r-block .. r)` that **are** smaller
+    than the pivot (right scan) -/
+def pibScanR (r block : Nat) (pivot : α) : M a0 (Array Nat) := do
+  let mut offs : Array Nat := #[]
+  for i in [0:block] do
+    if lt (← rd (r - 1 - i)) pivot then offs := offs.push i
+  return offs
+
+/-- the cyclic permutation of `count` out-of-place pairs, as the code's chain of moves written with swaps -/
+def pibChain (l r : Nat) (offsL : Array Nat) (startL : Nat) (offsR : Array Nat) (startR count : Nat) : M a0 Unit := do
+  swp (l + offsL[startL]!) (r - offsR[startR]! - 1)
+  for k in [1:count] do
+    swp (r - offsR[startR + k - 1]! - 1) (l + offsL[startL + k]!)
+    swp (l + offsL[startL + k]!) (r - offsR[startR + k]! - 1)
+
+/-- left block not exhausted at the end: move its remaining out-of-place elements to the far right; returns `r` -/
+def pibCleanL (l r : Nat) (offsL : Array Nat) (startL : Nat) : M a0 Nat := do
+  let mut r := r
+  let mut endL := offsL.size
+  for _ in [0:offsL.size] do
+    if startL < endL then
+      endL := endL - 1
+      swp (l + offsL[endL]!) (r - 1)
+      r := r - 1
+    else break
+  return r
+
+/-- right block not exhausted at the end: move its remaining out-of-place elements to the far left; returns `l` -/
+def pibCleanR (l r : Nat) (offsR : Array Nat) (startR : Nat) : M a0 Nat := do
+  let mut l := l
+  let mut endR := offsR.size
+  for _ in [0:offsR.size] do
+    if startR < endR then
+      endR := endR - 1
+      swp l (r - offsR[endR]! - 1)
+      l := l + 1
+    else break
+  return l
+
+/-- the state of the main loop of `partition_in_blocks` -/
+structure PibState where
+  l : Nat
+  r : Nat
+  blockL : Nat
+  blockR : Nat
+  offsL : Array Nat
+  startL : Nat
+  offsR : Array Nat
+  startR : Nat
+
+/-- the block sizes for this iteration (they change only when the remaining gap is at most two blocks) -/
+def pibBlocks (st : PibState) : PibState :=
+  if st.r - st.l ≤ 2 * PS_BLOCK then
+    let rem := if st.startL < st.offsL.size ∨ st.startR < st.offsR.size then st.r - st.l - PS_BLOCK else st.r - st.l
+    if st.startL < st.offsL.size then { st with blockR := rem }
+    else if st.startR < st.offsR.size then { st with blockL := rem }
+    else { st with blockL := rem / 2, blockR := rem - rem / 2 }
+  else st
+
+/-- the end of an iteration: an exhausted block is passed over -/
+def pibAdvance (st : PibState) : PibState :=
+  let st := if st.startL == st.offsL.size then { st with l := st.l + st.blockL } else st
+  if st.startR == st.offsR.size then { st with r := st.r - st.blockR } else st
+
+/-- one iteration of the main loop: choose the block sizes, rescan exhausted blocks, swap `count` pairs, advance -/
+def pibStep (pivot : α) (st0 : PibState) : M a0 PibState := do
+  let st1 := pibBlocks st0
+  let st2 ← if st1.startL == st1.offsL.size then do
+      let offs ← pibScanL lt st1.l st1.blockL pivot
+      pure { st1 with startL := 0, offsL := offs }
+    else pure st1
+  let st3 ← if st2.startR == st2.offsR.size then do
+      let offs ← pibScanR lt st2.r st2.blockR pivot
+      pure { st2 with startR := 0, offsR := offs }
+    else pure st2
+  let count := min (st3.offsL.size - st3.startL) (st3.offsR.size - st3.startR)
+  let st4 ← if count > 0 then do
+      pibChain st3.l st3.r st3.offsL st3.startL st3.offsR st3.startR count
+      pure { st3 with startL := st3.startL + count, startR := st3.startR + count }
+    else pure st3
+  return pibAdvance st4
+
 /-- `partition_in_blocks(v[lo..hi), pivot)`: number of elements `< pivot` -/
 def partitionInBlocks (lo hi : Nat) (pivot : α) : M a0 Nat := do
-  let mut l := lo
-  let mut r := hi
-  let mut blockL := PS_BLOCK
-  let mut blockR := PS_BLOCK
-  let mut offsL : Array Nat := #[]
-  let mut startL := 0
-  let mut offsR : Array Nat := #[]
-  let mut startR := 0
+  let mut st : PibState := { l := lo, r := hi, blockL := PS_BLOCK, blockR := PS_BLOCK, offsL := #[], startL := 0, offsR := #[], startR := 0 }
   for _ in [0:hi - lo + 2] do
-    let isDone := r - l ≤ 2 * PS_BLOCK
-    if isDone then
-      let mut rem := r - l
-      if startL < offsL.size ∨ startR < offsR.size then rem := rem - PS_BLOCK
-      if startL < offsL.size then blockR := rem
-      else if startR < offsR.size then blockL := rem
-      else
-        blockL := rem / 2
-        blockR := rem - blockL
-    if startL == offsL.size then
-      startL := 0
-      offsL := #[]
-      for i in [0:blockL] do
-        if !(lt (← rd (l + i)) pivot) then offsL := offsL.push i
-    if startR == offsR.size then
-      startR := 0
-      offsR := #[]
-      for i in [0:blockR] do
-        if lt (← rd (r - 1 - i)) pivot then offsR := offsR.push i
-    let count := min (offsL.size - startL) (offsR.size - startR)
-    if count > 0 then
-      -- the cyclic permutation of the code as a chain of swaps
-      swp (l + offsL[startL]!) (r - offsR[startR]! - 1)
-      for k in [1:count] do
-        swp (r - offsR[startR + k - 1]! - 1) (l + offsL[startL + k]!)
-        swp (l + offsL[startL + k]!) (r - offsR[startR + k]! - 1)
-      startL := startL + count
-      startR := startR + count
-    if startL == offsL.size then l := l + blockL
-    if startR == offsR.size then r := r - blockR
+    let isDone := st.r - st.l ≤ 2 * PS_BLOCK
+    st ← pibStep lt pivot st
     if isDone then break
-  if startL < offsL.size then
-    let mut endL := offsL.size
-    for _ in [0:offsL.size] do
-      if startL < endL then
-        endL := endL - 1
-        swp (l + offsL[endL]!) (r - 1)
-        r := r - 1
-      else break
+  if st.startL < st.offsL.size then
+    let r ← pibCleanL st.l st.r st.offsL st.startL
     return r - lo
-  else if startR < offsR.size then
-    let mut endR := offsR.size
-    for _ in [0:offsR.size] do
-      if startR < endR then
-        endR := endR - 1
-        swp l (r - offsR[endR]! - 1)
-        l := l + 1
-      else break
+  else if st.startR < st.offsR.size then
+    let l ← pibCleanR st.l st.r st.offsR st.startR
     return l - lo
   else
-    return l - lo
+    return st.l - lo
 
 /-- `partition(v[lo..hi), pivot)`: (mid, was_partitioned) -/
 def partition (lo hi pivotIdx : Nat) : M a0 (Nat × Bool) := do
